@@ -54,6 +54,30 @@ Theorem C04_inverse_pair_cancels :
 Proof. exact @inverse_pair_cancels. Qed.
 Print Assumptions C04_inverse_pair_cancels.
 
+(* a whole circuit followed by its dagger (the documented inverse of every gate, in reverse order, on the same targets and
+   controls) is the identity on every vector of the register - any length, either execution path *)
+Theorem C04_circuit_dagger_cancels :
+  forall (T : Type) (O : sops T), ring_of O ->
+  forall par n (gs gs' : list (opgate (T:=T))), inverse_list O gs gs' ->
+    Forall (fun gt : opgate (T:=T) => let '(g, ts, cs) := gt in args_valid g n ts cs = true) gs ->
+  forall v : list (C (T:=T)), length v = N.to_nat (2 ^ n) ->
+    run_ops O par (gs ++ gs') (mkState n v) = Ok (mkState n v).
+Proof. exact @circuit_dagger_cancels. Qed.
+Print Assumptions C04_circuit_dagger_cancels.
+
+(* non-vacuity: a three-gate circuit over the reals and its dagger satisfy the hypotheses *)
+Example C04_dagger_nonvacuous_R :
+  let gs := [(OpS, [1], [0]); (OpRZ (3/5)%R (4/5)%R, [0], [2; 1]); (OpT, [2], [])] in
+  inverse_list rops gs [(OpTdag, [2], []); (OpRZ (3/5)%R (- (4/5))%R, [0], [2; 1]); (OpSdag, [1], [0])] /\
+  Forall (fun gt : opgate (T:=R) => let '(g, ts, cs) := gt in args_valid g 3 ts cs = true) gs.
+Proof.
+  assert (H : (inv_sqrt2 rops * inv_sqrt2 rops + inv_sqrt2 rops * inv_sqrt2 rops = 1)%R) by (pose proof inv_sqrt2_sq; lra).
+  split; [|repeat constructor].
+  apply (il_cons rops OpS OpSdag [1] [0] _ [(OpTdag, [2], []); (OpRZ (3/5)%R (- (4/5))%R, [0], [2; 1])]); [constructor|].
+  apply (il_cons rops (OpRZ (3/5)%R (4/5)%R) (OpRZ (3/5)%R (- (4/5))%R) [0] [2; 1] _ [(OpTdag, [2], [])]); [apply (inv_RZ rops); simpl; lra|].
+  apply (il_cons rops OpT OpTdag [2] [] [] []); [constructor; exact H|constructor].
+Qed.
+
 (* ry_phase(theta, phi) / ry_phase_dag(theta, phi): the matrices the code builds are mutually inverse *)
 Theorem C04_ry_phase_inverse :
   forall (T : Type) (O : sops T), ring_of O ->
